@@ -75,15 +75,16 @@ Proof. vm_compute. reflexivity. Qed.
 Lemma w_zrle_pal_fixed : match handle_msg (init_state f101010 255 16 16) w_zrle_pal with Oob _ => False | _ => True end.
 Proof. vm_compute. exact I. Qed.
 
-(* F27 (open on the repaired flow, known_findings.d/C08.json): a 3-byte CPIXEL is read as a 32-bit word; when the
+(* F27 (fixed by 281f33a, known_findings.d/C08.json): a 3-byte CPIXEL is read as a 32-bit word; when the
    last CPIXEL of the decompressed data ends exactly at the end of the scratch area (390 = 65*1*3*2 bytes) the
-   read leaves the heap block by one byte.  Present with all of the fixes 0..6 (the baseline); gone with fix 8
-   (notes/fix_C08_7.diff: 4 spare bytes). *)
+   read leaves the heap block by one byte.  Present with the fixes 0..6 only (state127); gone with fix 8
+   (notes/fix_C08_7.diff = 281f33a: 4 spare bytes), i.e. on the baseline. *)
 Definition w_zrle_cp24 : list tok :=
   fbu1 0 0 65 1 cE_ZRLE ++
   [TZ 0 true true ([128] ++ concat (repeat [17; 34; 51; 0] 63) ++ [17; 34; 51] ++ repeat 255 129 ++ [0] ++ [0; 68; 85; 102])].
-Lemma w_zrle_cp24_oob : handle_msg (init_state f888 255 65 1) w_zrle_cp24 = Oob 36.
+Definition state127 (f : pixfmt) (g w h : Z) : cst := set_fix (init_state f g w h) 127.   (* before d211e4c / 281f33a *)
+Lemma w_zrle_cp24_oob : handle_msg (state127 f888 255 65 1) w_zrle_cp24 = Oob 36.
 Proof. vm_compute. reflexivity. Qed.
 Lemma w_zrle_cp24_fixed :
-  match handle_msg (set_fix (init_state f888 255 65 1) 383) w_zrle_cp24 with Ok _ _ [] => True | _ => False end.
+  match handle_msg (init_state f888 255 65 1) w_zrle_cp24 with Ok _ _ [] => True | _ => False end.
 Proof. vm_compute. exact I. Qed.
